@@ -448,6 +448,17 @@ def round_trip(obj, how):
     raise KeyError(how)
 
 
+def build_via(cls, params, via=None, alt=None):
+    """the configured object, built by the constructor (via falsy) or built with OTHER values (`alt`, default: the class defaults) and
+    then configured with set_params(**params) - what clone(est).set_params(**candidate) of a grid search, or a Pipeline's nested keys, do.
+    scikit-learn's contract makes the two indistinguishable once fit is called."""
+    if not via:
+        return cls(**params)
+    obj = cls(**(alt or {}))
+    obj.set_params(**params)
+    return obj
+
+
 def with_np(strategy):
     """adds the flag `np_params` (one case in three) to the dict cases of a strategy"""
     from hypothesis import strategies as st
